@@ -44,7 +44,14 @@ ASSUMPTIONS = [
     "the doubles (TestGenerator/TestCache in bridge/akbridge_virtual.cpp) stand for PyArrayGenerator/PyArrayCache of "
     "the pybind11 layer, which cannot be built here; they implement the same virtual interface",
     "results that still contain VirtualArray nodes are read through a bridge-side deep materialisation",
-    "the Python PartitionedArray (src/awkward/partition.py) is not driven here (lane P)",
+    "one case in seven runs on lane P (checks/pstreams.py gen_c18/run_c18): ak.partitioned / IrregularlyPartitionedArray / "
+    "ak.repartition over numeric list types and ak.virtual (form/length declared or not; cache None, dict, 'new', "
+    "forgetting and randomly evicting MutableMappings; generators that raise once, return a shorter/longer array or "
+    "another form) run 1-3 operations of a 28-operation catalogue on the partitioned/virtual array and on the eager "
+    "twin - outcome and value must agree (no opinion where only the eager array raises). Not drawn, because the first "
+    "runs differed there and were not triaged: partitioned records (ak.num(axis=0), ak.where, integer-array slices, "
+    "zip/with_field of partitions), boolean-array slices of a repartitioned array, strings, sort/argsort/pad_none/"
+    "jagged masks (left to C06/C09/C01) and type strings",
 ]
 
 FAMS = ["slice", "structure", "reduce", "sort", "combinations", "pad", "merge", "astype", "queries", "convert2"]
@@ -76,6 +83,9 @@ def _inner_axis(op):
 
 
 def gen_case(rng, tier, index):
+    if index % 7 == 6:         # the Python half: ak.partitioned / ak.repartition / ak.virtual (lane P)
+        from checks import pstreams
+        return pstreams.gen_p(rng, tier, PROPERTY)
     cfg = gen.Cfg(tier)
     cfg.categorical = False
     r = index % 20
@@ -157,6 +167,9 @@ def _wrap(b, w, case, script_of):
 
 
 def run_case(ctx, case):
+    if case.get("lane") == "P":
+        from checks import pstreams
+        return pstreams.run_p(ctx, case)
     b = ctx.lib
     stream = case["stream"]
     ctx.cover("stream", stream)
